@@ -19,7 +19,9 @@ RULE = (
     "in-place mutation of lists / structs derived from owned vs borrowed arguments. Each body is traced by the real compiler "
     "(check + lowering) and abstracted to the model's op sequence; the model's verdict (ok | alreadyUsed | leaked | frozen) is compared "
     "with the class of the real error. Non-trivial = the body contains at least one qubit that is used or leaked; distinct by source text. "
-    "frozenlist: every attribute of CPython's `list` is called on a frozenlist and on a list (oracle for 'mutating')."
+    "frozenlist: every attribute of CPython's `list` is called on a frozenlist and on a list (oracle for 'mutating'). "
+    "Nested frozen-ness: every argument shape up to depth 3 (arrays / structs / tuples of ints) x every path to a mutable container x owned / "
+    "borrowed x mutation; owned => must be rejected as frozen, borrowed => accepted (thorough: whole grid; quick: sample biased to nesting >= 1)."
 )
 ASSUMPTIONS = [
     "the abstraction of a generated body to ops (allocation = create, owned consumption / return = use, gate call = borrow) is part of the harness; "
@@ -36,7 +38,8 @@ UNMODELLED = [
 MANIFEST = {
     "level_text": "Lean theorems for all traces (induction over the op list of Model/TraceOwn.lean): `noncopyable_used_at_most_once` (in every state "
     "reached by a successful trace a non-copyable object has been used at most once since its creation or last borrow-reset), "
-    "`undroppable_leak_rejected` (a trace ending with an unused non-droppable object is rejected with `leaked`; the dict "
+    "`frozen_inherited_at_any_depth` (every mutable container reachable at any depth inside an unpacked argument carries the argument's frozen flag; "
+    "so every nested mutation of an owned argument is rejected), `undroppable_leak_rejected` (a trace ending with an unused non-droppable object is rejected with `leaked`; the dict "
     "`unused_undroppable_objs` is exactly the set of such objects), `frozen_mutation_rejected`, `no_internal_error_partial`; "
     "`frozen_rejects_all` (decide over the regenerated table of frozenlist overrides against CPython 3.12's 12 mutating list methods). "
     "Tie: generated comptime bodies through the real tracer, verdict vs model verdict (quick 150 / thorough 2000), plus every `list` attribute "
@@ -371,6 +374,140 @@ SPEC_MUTATORS = sorted(["append", "clear", "extend", "insert", "pop", "remove", 
                         "__setitem__", "__delitem__", "__iadd__", "__imul__"])
 
 
+# ---------------------------------------------------------------------- nested frozen-ness (unpack_guppy_object)
+# Shapes: ("L",) | ("A", e) | ("S", a, b) | ("T", a, b); leaves are ints.  Paths: "e" (element), "0"/"1" (field / item).
+LIST_MUTATORS = ["{x}[0] = {x}[1]", "{x}.append({x}[0])", "{x}.pop()", "{x}.clear()", "{x}.extend([])", "{x}.insert(0, {x}[0])",
+                 "{x}.remove({x}[0])", "{x}.reverse()", "{x}.sort()", "del {x}[0]", "{x} += []", "{x} *= 1"]
+SAFE_LIST_MUTATORS = ["{x}[0] = {x}[1]", "{x}.reverse()"]       # keep the type of a borrowed argument intact
+STRUCT_MUTATORS = ["{x}.a = {x}.a", "{x}.b = {x}.b"]
+
+
+def all_shapes(depth):
+    if depth == 0:
+        return [("L",)]
+    sub = all_shapes(depth - 1)
+    small = [("L",)] + [s for s in sub if s != ("L",)][:3]
+    out = [("L",)] + [("A", e) for e in sub]
+    for k in ("S", "T"):
+        out += [(k, a, b) for a in small for b in small]
+    seen, res = set(), []
+    for x in out:
+        if x not in seen:
+            seen.add(x)
+            res.append(x)
+    return res
+
+
+def has_array(sh):
+    return sh[0] == "A" or any(has_array(c) for c in sh[1:])
+
+
+def container_paths(sh, prefix=()):
+    """paths to every mutable container (list / struct object) inside the unpacked value"""
+    out = []
+    if sh[0] in ("A", "S"):
+        out.append(prefix)
+    if sh[0] == "A":
+        out += container_paths(sh[1], prefix + ("e",))
+    elif sh[0] in ("S", "T"):
+        out += container_paths(sh[1], prefix + ("0",))
+        out += container_paths(sh[2], prefix + ("1",))
+    return out
+
+
+def shape_tokens(sh):
+    return sh[0] + "".join(" " + shape_tokens(c) for c in sh[1:])
+
+
+class TyGen:
+    def __init__(self):
+        self.classes, self.names = [], {}
+
+    def ty(self, sh):
+        if sh[0] == "L":
+            return "int"
+        if sh[0] == "A":
+            return f"array[{self.ty(sh[1])}, 2]"
+        if sh[0] == "T":
+            return f"tuple[{self.ty(sh[1])}, {self.ty(sh[2])}]"
+        if sh not in self.names:
+            a, b = self.ty(sh[1]), self.ty(sh[2])
+            nm = f"St{len(self.names)}"
+            self.names[sh] = nm
+            self.classes.append(f"@guppy.struct\nclass {nm}:\n    a: {a}\n    b: {b}\n")
+        return self.names[sh]
+
+
+def path_expr(sh, path, rng):
+    x = "v"
+    for st in path:
+        if st == "e":
+            x += f"[{rng.randrange(2)}]"
+            sh = sh[1]
+        else:
+            i = int(st)
+            x += (".a" if i == 0 else ".b") if sh[0] == "S" else f"[{i}]"
+            sh = sh[1 + i]
+    return x, sh
+
+
+def nested_cases(ctx):
+    rng = ctx.rng
+    grid = []
+    for sh in all_shapes(3):
+        for path in container_paths(sh):
+            grid.append((sh, path))
+    grid = [g for g in grid if len(g[1]) <= 4]
+    if ctx.quick:
+        deep = [g for g in grid if len(g[1]) >= 1]
+        grid = rng.sample(deep, min(45, len(deep))) + rng.sample(grid, 10)
+    cases = []
+    for sh, path in grid:
+        for owned in (True, False):
+            if not owned and not has_array(sh):
+                continue          # a copyable argument cannot be borrowed: it is always "owned"
+            tg = TyGen()
+            T = tg.ty(sh)
+            x, target = path_expr(sh, path, rng)
+            if target[0] == "A":
+                muts = LIST_MUTATORS if owned else SAFE_LIST_MUTATORS
+            else:
+                muts = STRUCT_MUTATORS
+            mut = rng.choice(muts) if ctx.quick or not owned else None
+            for mtxt in ([mut] if mut else muts[:4] + [rng.choice(muts[4:])] if target[0] == "A" else muts[:1]):
+                ann = T + (" @owned" if owned and has_array(sh) else "")
+                src = ("".join(tg.classes) + f"@guppy.comptime\ndef f(v: {ann}) -> None:\n    " + mtxt.format(x=x) + "\n")
+                cases.append((src, f"unpack {int(owned)} {shape_tokens(sh)} {' '.join(path)}".strip(), len(path)))
+    return cases
+
+
+def tie_nested(ctx):
+    cases = nested_cases(ctx)
+    corpus = os.path.join(vlib.VERIF, "corpus", "c22_nested")
+    if os.path.isdir(corpus):
+        for fn in sorted(os.listdir(corpus)):
+            for r in json.load(open(os.path.join(corpus, fn))):
+                cases.insert(0, (r["src"], r["req"], r.get("depth", 1)))
+    if ctx.replay_in and "req" in ctx.replay_in.get("replay", {}):
+        r = ctx.replay_in["replay"]
+        cases.insert(0, (r["src"], r["req"], r.get("depth", 1)))
+    model = ctx.driver(DRIVER, [c[1] for c in cases])
+    for (src, req, depth), mv in zip(cases, model):
+        rv, detail = real_verdict(src)
+        owned = req.split()[1] == "1"
+        orc = "frozen" if owned else "ok"      # the property's literal reading: derived from an owned argument => rejected
+        ctx.count(["nested", src], nontrivial=depth >= 1, kind=f"nested:d{depth}:{mv}/{rv.split(':')[0]}")
+        rep = {"src": src, "req": req, "depth": depth, "model": mv, "real": rv, "detail": detail, "oracle": orc}
+        if rv.startswith("crash") or rv.startswith("loadfail"):
+            ctx.violation("nested:" + src, f"the tracer crashes ({rv}: {detail}) on\n{src}", rep)
+        elif rv != orc:
+            what = ("an in-place mutation of a value derived from an OWNED argument is accepted" if owned
+                    else "a mutation of a value derived from a BORROWED argument is rejected")
+            ctx.violation("nested:" + src, f"{what} (nesting depth {depth}): real `{rv}` ({detail}), required `{orc}`:\n{src}", rep)
+        if rv != mv:
+            ctx.broke(f"correspondence unpack/mutateAt vs unpack_guppy_object: model {mv}, real {rv} on `{req}`")
+
+
 def tie(ctx):
     # ---- frozenlist: oracle for the fixed list of Spec/C22.lean, and the real class's behaviour
     muts = [m for m in list_mutators() if m != "__init__"]
@@ -412,6 +549,7 @@ def tie(ctx):
             if rv != orc:
                 ctx.violation("trace:" + body, f"ownership verdict of the real tracer is `{rv}` ({detail}) but the property requires `{orc}` for\n{body}", rep)
             ctx.broke(f"correspondence Model/TraceOwn.lean vs tracer: model {mv}, real {rv} on ops `{ops}`")
+    tie_nested(ctx)
 
 
 def oracle(line):
